@@ -74,9 +74,14 @@ def _names_used(node: ast.AST, name: str) -> list[ast.Name]:
 
 def _merge_loop(prod: FuncInfo):
     vararg = prod.node.args.vararg.arg if prod.node.args.vararg else None
-    for it in iterations(prod.node):
-        if it["kind"] == "loop" and vararg and any(isinstance(x, ast.Name) and x.id == vararg for x in ast.walk(it["iter"])):
-            return vararg, it["node"]
+    def only_validates(lp: ast.For) -> bool:
+        """`for other in others: if not isinstance(other, Sweep): raise ...` - an up-front check, not the merge."""
+        return bool(lp.body) and all(isinstance(st, ast.If) and not st.orelse and st.body and isinstance(st.body[-1], ast.Raise) for st in lp.body)
+
+    loops = [it["node"] for it in iterations(prod.node) if it["kind"] == "loop" and vararg and any(isinstance(x, ast.Name) and x.id == vararg for x in ast.walk(it["iter"]))]
+    merging = [lp for lp in loops if not only_validates(lp)]
+    if merging or loops:
+        return vararg, (merging or loops)[0]
     raise AnalysisError("Sweep.product: no statement loop over the operands found")
 
 
@@ -171,6 +176,26 @@ def rule_all_operands(ctx: Ctx) -> None:
                     mutated_in_loop.add(t.id)
                 if isinstance(t, ast.Subscript) and isinstance(t.value, ast.Name):
                     mutated_in_loop.add(t.value.id)
+    # an accumulator OBJECT that absorbs the operand through one of its methods (`parts.absorb(other)`): the attributes that method
+    # writes are accumulated; a method that cannot be found makes the whole object "possibly accumulated"
+    mutated_attrs: set[str] = set()
+    for n in ast.walk(loop):
+        if isinstance(n, ast.Call) and isinstance(n.func, ast.Attribute) and isinstance(n.func.value, ast.Name) and n.func.attr not in ("update", "extend", "append") \
+                and any(isinstance(x, ast.Name) and x.id == var for a_ in [*n.args, *[k.value for k in n.keywords]] for x in ast.walk(a_)):
+            recv = n.func.value.id
+            impls = [c_.methods[n.func.attr] for c_ in ctx.prog.classes.values() if c_.module.name == MOD and n.func.attr in dict.keys(c_.methods)]
+            if not impls:
+                mutated_in_loop.add(recv)
+                continue
+            for m_ in impls:
+                for w in ast.walk(m_.node):
+                    tg = w.targets if isinstance(w, ast.Assign) else ([w.target] if isinstance(w, (ast.AugAssign, ast.AnnAssign)) else [])
+                    for t in tg:
+                        if isinstance(t, ast.Attribute) and isinstance(t.value, ast.Name) and t.value.id == "self":
+                            mutated_attrs.add(f"{recv}.{t.attr}")
+                    if isinstance(w, ast.Call) and isinstance(w.func, ast.Attribute) and w.func.attr in ("update", "extend", "append", "setdefault", "add") and isinstance(w.func.value, ast.Attribute) \
+                            and isinstance(w.func.value.value, ast.Name) and w.func.value.value.id == "self":
+                        mutated_attrs.add(f"{recv}.{w.func.value.attr}")
     ret_calls = [c for st in after for c in ast.walk(st) if isinstance(c, ast.Call) and dotted(c.func) in ("Sweep", "type(self)", "self.__class__")]
     if not ret_calls:
         raise AnalysisError("Sweep.product: construction of the result not found")
@@ -194,14 +219,15 @@ def rule_all_operands(ctx: Ctx) -> None:
             continue
         r = d.resolve(e)
         names = {x.id for x in ast.walk(e) if isinstance(x, ast.Name)} | {x.id for x in ast.walk(r) if isinstance(x, ast.Name)}
-        dep = bool(names & mutated_in_loop) or (vararg in names)
+        dep = bool(names & mutated_in_loop) or (vararg in names) or any(norm(x) in mutated_attrs for x in [*ast.walk(e), *ast.walk(r)] if isinstance(x, ast.Attribute))
         if not dep:  # through further locals (all definitions, in-place growth, loop variables)
             from ..flow import dependence_text
 
             closure = dependence_text(prod.node, e, depth=6)
             dep = any(re.search(rf"\b{re.escape(nm)}\b", closure) for nm in mutated_in_loop | {vararg})
         ctx.add("1-all-operands", prod, e, dep, f"`{attr}` is accumulated over all operands" if dep else f"`{attr}` of the result is `{norm(r)[:50]}`: it does not depend on the operands", key=f"merged {attr}")
-        src = ast.unparse(loop) + ast.unparse(r)
+        src = ast.unparse(loop) + ast.unparse(r) + "".join(ast.unparse(c_.methods[n_.func.attr].node) for n_ in ast.walk(loop) if isinstance(n_, ast.Call) and isinstance(n_.func, ast.Attribute)
+                                                        for c_ in ctx.prog.classes.values() if c_.module.name == MOD and n_.func.attr in dict.keys(c_.methods) and c_.name != "Sweep")
         own = f".{attr}" in src
         ctx.tri("1-all-operands", prod, e, own, False, f"reads `<operand>.{attr}`", "", f"no read of `<operand>.{attr}` recognised", key=f"reads {attr}")
 
